@@ -54,7 +54,8 @@ void stage(const char* ph, const std::string& fn, long long gid, const std::vect
   std::string a = jints(args);
   snprintf(g_stage, sizeof g_stage, "{\"e\":\"Crash\",\"ph\":\"%s\",\"fn\":\"%s\",\"g\":%lld,\"args\":%s}", ph, fn.c_str(), gid, a.c_str());
 }
-void stage_clear() { g_stage[0] = 0; }
+// outside a monitored call the recorder still names the group, so that the driver can resume behind it
+void stage_idle(long long gid) { stage("harness", "-", gid, std::vector<long long>()); }
 
 // ---------------------------------------------------------------- cells
 std::string cellbits(uint64_t u) {
@@ -173,7 +174,9 @@ std::string native_boolD(const Inp<double>& in, const AMap& m, int tree) {
   else { PathsD sol; ok = c.Execute(ClipType(A(m, "ct")), FillRule(A(m, "fr")), sol, open); a = jcpaths<double>(sol); }
   return "\"ok\":" + jnum(ok) + ",\"t\":" + jnum(tree) + ",\"a\":" + a + ",\"b\":" + jcpaths<double>(open);
 }
+// delta = 0: the documented C++ InflatePaths returns its input unchanged ("if (!delta) return paths;")
 Paths64 native_infl64_raw(const Paths64& ps, const AMap& m, bool single) {
+  if (A(m, "delta") == 0) return single ? Paths64{ps.empty() ? Path64() : ps[0]} : ps;
   ClipperOffset co(A(m, "ml") / 4.0, A(m, "at") / 4.0, A(m, "pc") != 0, A(m, "rs") != 0);
   if (single) co.AddPath(ps.empty() ? Path64() : ps[0], JoinType(A(m, "jt")), EndType(A(m, "et")));
   else co.AddPaths(ps, JoinType(A(m, "jt")), EndType(A(m, "et")));
@@ -182,6 +185,7 @@ Paths64 native_infl64_raw(const Paths64& ps, const AMap& m, bool single) {
 // the recipe of the documented InflatePaths(PathsD, delta, jt, et, miter_limit, precision, arc_tolerance) with the two
 // ClipperOffset options added (cross-checked against the literal function below whenever pc = rs = atu = 0)
 PathsD native_inflD_raw(const PathsD& ps, const AMap& m, bool single) {
+  if (A(m, "delta") == 0) return single ? PathsD{ps.empty() ? PathD() : ps[0]} : ps;
   int ec = 0; const double scale = std::pow(10, (int)A(m, "prec"));
   const double at = A(m, "at") / 4.0;
   ClipperOffset co(A(m, "ml") / 4.0, A(m, "atu") ? at : at * scale, A(m, "pc") != 0, A(m, "rs") != 0);
@@ -275,6 +279,7 @@ template <class T> void run_group(Group& g, long long& ncalls) {
   Inp<T> in; in.a = mkpaths<T>(rec["a"]); in.b = mkpaths<T>(rec["b"]); in.c = mkpaths<T>(rec["c"]);
   const bool single = F.cls == "infl1" || F.cls == "mink";
   XIn<T> x;
+  stage("export", "CreateCPathsFromPathsT", g.gid, std::vector<long long>());
   if (single) { x.a = mkcpath<T>(in.a.empty() ? Path<T>() : in.a[0], x.la); if (F.cls == "mink") x.b = mkcpath<T>(in.b.empty() ? Path<T>() : in.b[0], x.lb); }
   else { x.a = CreateCPathsFromPathsT<T>(in.a); if (F.cls == "bool") { x.b = CreateCPathsFromPathsT<T>(in.b); x.c = CreateCPathsFromPathsT<T>(in.c); } }
   Ev ce("Case");
@@ -284,6 +289,7 @@ template <class T> void run_group(Group& g, long long& ncalls) {
   ce.kv("xb", x.b ? (single ? xraw<T>(x.b, x.lb) : xarr<T>(x.b)) : std::string(XNUL));
   ce.kv("xc", x.c ? xarr<T>(x.c) : std::string(XNUL));
   emit(ce.str()); fflush(g_f);
+  stage_idle(g.gid);
   // native product
   Dedup nd; std::vector<long long> nk; const long long NN = prod(F.n);
   for (long long k = 0; k < NN; ++k) {
@@ -302,7 +308,7 @@ template <class T> void run_group(Group& g, long long& ncalls) {
     bool fresh; int ix = xd.get(r, fresh); xj.push_back(ix);
     if (fresh) emit("{\"e\":\"XOut\",\"j\":" + jnum(ix) + "," + r + "}");
   }
-  stage_clear();
+  stage_idle(g.gid);
   if (single) { delete[] x.a; delete[] x.b; } else { dispose(x.a); dispose(x.b); dispose(x.c); }
   emit(Ev("Runs").kn("g", g.gid).ks("fn", F.fn).kv("nk", jints(nk)).kv("xj", jints(xj)).kn("litn", g.litn).kn("litbad", g.litbad).str());
 }
@@ -333,7 +339,6 @@ int cmd_c17(const Args& a) {
   for (auto& t : tab) { FnRec F; F.fn = t["fn"].s; F.kind = t["kind"].s; F.cls = t["cls"].s; F.tree = (int)t["tree"].i(); F.x = params_from(t["x"]); F.n = params_from(t["n"]);
     for (auto& r : t["rects"].a) { std::vector<long long> q; for (auto& v : r.a) q.push_back(v.i()); F.rects.push_back(q); } fns.push_back(F); }
   long long shard = argi(a, "shard", 0), nshards = argi(a, "nshards", 1), from = argi(a, "from", 0), only = argi(a, "only", -1);
-  std::string mode = args(a, "append", "0");
   g_f = fopen(args(a, "out", "/dev/stdout").c_str(), "w");
   if (!g_f) return 3;
   install_crash_recorder();
@@ -348,7 +353,7 @@ int cmd_c17(const Args& a) {
   }
   fclose(g_f);
   fprintf(stderr, "c17: %lld groups, %lld exported calls\n", ngroups, ncalls);
-  return 0;
+  fflush(stderr); _exit(0);   // no teardown after the trace is complete (a heap damaged by the library must not turn into a harness failure here)
 }
 
 // ---------------------------------------------------------------- layout family
@@ -450,10 +455,10 @@ void lay_tree(const JV& rec) {
     double* arr = CreateCPolyTreeD(t);
     emit(Ev("LayT").ks("kind", "D").kn("id", rec["id"].i()).kv("t", jctree<double, PolyPathD>(t)).kv("arr", xarr<double>(arr)).str()); dispose(arr); }
 }
-// vh c17lay --in lay.ndjson --shard k --nshards n [--only id] --out file
+// vh c17lay --in lay.ndjson --shard k --nshards n [--from i0] [--only id | --onlyidx i] --out file
 int cmd_c17lay(const Args& a) {
   std::vector<JV> recs = read_ndjson(args(a, "in", ""));
-  long long shard = argi(a, "shard", 0), nshards = argi(a, "nshards", 1), only = argi(a, "only", -1), from = argi(a, "from", 0);
+  long long shard = argi(a, "shard", 0), nshards = argi(a, "nshards", 1), only = argi(a, "only", -1), onlyidx = argi(a, "onlyidx", -1), from = argi(a, "from", 0);
   g_f = fopen(args(a, "out", "/dev/stdout").c_str(), "w");
   if (!g_f) return 3;
   install_crash_recorder();
@@ -461,15 +466,15 @@ int cmd_c17lay(const Args& a) {
   long long n = 0, i = 0;
   for (auto& rec : recs) {
     long long i0 = i++;
-    if (only >= 0 ? rec["id"].i() != only : (i0 % nshards != shard || i0 < from)) continue;
-    ++n; g_cur = i0;
+    if (onlyidx >= 0 ? i0 != onlyidx : only >= 0 ? rec["id"].i() != only : (i0 % nshards != shard || i0 < from)) continue;
+    ++n; g_cur = i0; stage_idle(i0);
     if (rec.has("ps")) { lay_paths<int64_t>(rec); lay_paths<double>(rec); lay_d_extra(rec); cvt<int64_t>(rec); cvt<double>(rec); }
     else lay_tree(rec);
-    stage_clear();
+    stage_idle(i0);
   }
   fclose(g_f);
   fprintf(stderr, "c17lay: %lld records\n", n);
-  return 0;
+  fflush(stderr); _exit(0);
 }
 }  // namespace
 static Reg r_c17("c17", cmd_c17);
